@@ -85,6 +85,24 @@ Theorem for_loop_cons v vs i s k :
   | (o, s', k') => (o, pop_plain s', k')
   end.
 Proof. reflexivity. Qed.
+
+(* a loop that ran at least once and finished leaves no interrupt behind: `break` and `continue` never
+   reach the code after the loop (in particular the enclosing loop) *)
+Lemma clear_intr_not_interrupted s : interrupted (clear_intr s) = false.
+Proof. reflexivity. Qed.
+Theorem for_loop_consumes_interrupt : forall vs i s k s' k', vs <> [] ->
+  floop vs i s k = (ODone, s', k') -> interrupted s' = false.
+Proof.
+  induction vs as [|v vs IH]; intros i s k s' k' Hne H; [congruence|].
+  rewrite for_loop_cons in H.
+  destruct (body (push_plain (iter_frame i v) s) k) as [[o s1] k1]. destruct o; try discriminate.
+  destruct (r_intr (get_regs (pop_plain s1))) as [[|]|] eqn:E.
+  - inversion H; subst. apply clear_intr_not_interrupted.
+  - destruct vs as [|v' vs']; [rewrite for_loop_nil in H; inversion H; subst; apply clear_intr_not_interrupted|].
+    eapply IH; [discriminate|exact H].
+  - destruct vs as [|v' vs']; [rewrite for_loop_nil in H; inversion H; subst; apply clear_intr_not_interrupted|].
+    eapply IH; [discriminate|exact H].
+Qed.
 End Loops.
 
 (* the for block: the else branch runs exactly when nothing is selected; otherwise the loop runs
@@ -104,6 +122,32 @@ Theorem rnode_for x rng limit offset reversed body els s k :
     | _ => for_loop (rlist O ps rec body) x (Z.of_nat (length sel)) (try_get O [SStr k_forloop] (fr s)) sel 0%Z s k
     end))).
 Proof. reflexivity. Qed.
+(* a sequence stops after the element that raised an interrupt, and goes on otherwise *)
+Theorem rlist_cons n l s k :
+  rlist O ps rec (n :: l) s k =
+  match rnode O ps rec n s k with
+  | (ODone, s', k') => if interrupted s' then (ODone, s', k') else rlist O ps rec l s' k'
+  | o => o
+  end.
+Proof. cbn [rlist]. unfold seq_step. destruct (rnode O ps rec n s k) as [[[| |] ?] ?]; reflexivity. Qed.
+Theorem break_stops_the_sequence l s k : exists s', rlist O ps rec (NBreak :: l) s k = (ODone, s', k) /\ r_intr (get_regs s') = Some Brk.
+Proof. rewrite rlist_cons. cbn [rnode]. eexists. split; reflexivity. Qed.
+Theorem continue_stops_the_sequence l s k : exists s', rlist O ps rec (NContinue :: l) s k = (ODone, s', k) /\ r_intr (get_regs s') = Some Cont.
+Proof. rewrite rlist_cons. cbn [rnode]. eexists. split; reflexivity. Qed.
+(* break ends only the innermost loop: what follows a for block that iterated runs as if the block had
+   contained no break at all *)
+Theorem after_a_for_block_the_sequence_goes_on x rng limit offset reversed body els rest s k arr lim off s' k' :
+  eval_range O rng s = Ok arr -> attr_usize O limit s = Ok lim -> attr_usize O offset s = Ok off ->
+  iter_array arr lim (match off with Some z => z | None => 0%Z end) reversed <> [] ->
+  rnode O ps rec (NFor x rng limit offset reversed body els) s k = (ODone, s', k') ->
+  rlist O ps rec (NFor x rng limit offset reversed body els :: rest) s k = rlist O ps rec rest s' k'.
+Proof.
+  intros Ha Hl Ho Hne H. rewrite rlist_cons, H.
+  rewrite rnode_for, Ha, Hl, Ho in H. cbn [of_res] in H. cbv zeta in H.
+  destruct (iter_array arr lim (match off with Some z => z | None => 0%Z end) reversed) as [|v sel] eqn:E; [congruence|].
+  assert (I : interrupted s' = false) by (eapply for_loop_consumes_interrupt; [|exact H]; discriminate).
+  rewrite I. reflexivity.
+Qed.
 Theorem rnode_if mode c t e s k :
   rnode O ps rec (NIf mode c t e) s k =
   of_res (eval_cond O c s) s k (fun b => if Bool.eqb b mode then rlist O ps rec t s k else ropt_list e s k).
